@@ -43,6 +43,7 @@ ALL = SINGLES + CROSS + ROTS
 def required(tier):
     cover = [f"cls:{c}" for c in ALL if c != "HilbertEOF"] + [f"layout:{l}" for l in LAYOUTS] + [f"sched:{s}" for s in SCHEDS]
     cover += ["mode:lazy", "mode:eager"] + [f"decided:{c}" for c in ALL if c != "HilbertEOF"]
+    cover += ["cross:use_pca", "cross:use_pca:single", "cross:use_pca:samples"]
     return {"mon": ["sched_entries_compute", "lazy_fits_observed"], "cover": cover, "max_refused_share": 0.6}
 
 
@@ -94,6 +95,13 @@ def cases(tier, seed):
             i += 1
         out.append(_case(gen.rng_for(1203, i), cls, "samples", "threads4", "eager"))
         i += 1
+    # cross-set models with a PCA pre-reduction to a few modes, one-chunk and many-chunk layouts
+    for cls in CROSS:
+        for layout in ("single", "samples", "both"):
+            c = _case(gen.rng_for(1204, i), cls, layout, "sync", "lazy")
+            c["dseed"] = c["dseed"] - c["dseed"] % 4 + 1
+            out.append(c)
+            i += 1
     nrand = 40 if tier == "quick" else 1500
     for j in range(nrand):
         out.append(_case(gen.rng_for(seed, 12, j)))
@@ -153,6 +161,11 @@ def _kw(case, compute):
         kw.update(alpha=1e-4, beta=1e-4, max_iter=4)
     if base in CROSS:
         kw.update(use_pca=False)
+        if case["dseed"] % 4 == 1:
+            # PCA pre-reduction to a few modes: the pre-step has its own back-end dispatch (and its own ways of
+            # touching the data); q = number of features of the second field, see _data
+            q = max(3, min(6, case["fa"] * case["fb"]))
+            kw.update(use_pca=True, n_pca_modes=int(min(k + 1, q)))
         if base == "CPCCA":
             kw.update(alpha=0.5)
     return base, kw
@@ -232,6 +245,9 @@ def run_case(case, obs):
     cls, layout, sched, mode = case["cls"], case["layout"], case["sched"], case["mode"]
     obs.tag(cls=cls, mode=mode)
     obs.cell(f"cls:{cls}", f"layout:{layout}", f"sched:{sched}", f"mode:{mode}", f"solver:{case['solver']}")
+    if _kw(case, False)[1].get("use_pca"):
+        obs.cell("cross:use_pca", f"cross:use_pca:{layout}")
+        obs.tag(use_pca=True)
     X, Y = _data(case)
     is_rot = cls in ROTS
     obs.nontrivial = layout != "single" or sched != "sync"
